@@ -350,7 +350,8 @@ class Ctx:
         seen = getattr(self, '_inst_seen', set())
         self._inst_seen = seen
         for k, (vs, body, label) in enumerate(getattr(self, 'schemas', [])):
-            for combo in itertools.product(terms, repeat=len(vs)):
+            pools = [[t for t in terms if t.sort() == v.sort()] for v in vs]
+            for combo in itertools.product(*pools):
                 key = (k,) + tuple(t.get_id() for t in combo)
                 if key in seen:
                     continue
